@@ -1,6 +1,7 @@
 package main
 
 import (
+	"strconv"
 	"encoding/json"
 	"flag"
 	"fmt"
@@ -49,6 +50,9 @@ func main() {
 		json.Unmarshal(b, &e.hints)
 	}
 	e.jobs = runtime.NumCPU()
+	if j, err := strconv.Atoi(os.Getenv("GOVC_JOBS")); err == nil && j > 0 {
+		e.jobs = j
+	}
 	e.timeout = *timeout
 	if e.timeout == 0 {
 		e.timeout = 10
